@@ -150,12 +150,29 @@ def rule_purity(chk: Check, model, rid: str):
     # nothing else is called on self from the API methods (the cone is closed)
     api = ["run", "step", "reset", "rollout", "run_until_supervisor", "run_supervisor"]
     known = set(api) | {"_run_partition_excl_supervisor", "max_steps", "supervisor", "_timings", "_supervisor_kind", "_supervisor_slot", "timings", "nodes"}
-    for name in api:
+    from ..symeval import _known_api
+    frozen = _known_api() or set()
+    work, done_ = list(api), set()
+    while work:
+        name = work.pop()
+        if name in done_:
+            continue
+        done_.add(name)
         fi = model.func(f"graph.Graph.{name}")
         for nnode in ast.walk(fi.node):
-            if isinstance(nnode, ast.Attribute) and isinstance(nnode.value, ast.Name) and nnode.value.id == "self":
-                chk.add(rid, f"cone-closed:Graph.{name}:self.{nnode.attr}", nnode.attr in known, f"Graph.{name} uses self.{nnode.attr}, which is outside the analysed cone "
-                        "(add it to the cone table after review)", chk.loc(fi, nnode)) if nnode.attr not in known else None
+            if isinstance(nnode, ast.Attribute) and isinstance(nnode.value, ast.Name) and nnode.value.id == "self" and nnode.attr not in known:
+                q = f"graph.Graph.{nnode.attr}"
+                if q in model.functions and q not in frozen:
+                    # a private method the reference tree does not have (part of an API method split off): it joins the cone and is held
+                    # to the same purity rule
+                    if nnode.attr not in done_:
+                        eff = effects_of(model.functions[q])
+                        chk.used(q)
+                        chk.add(rid, q, not eff, f"{q} has effects visible outside the call: {eff[:3]}" if eff else "effect-free", chk.loc(model.functions[q]))
+                        work.append(nnode.attr)
+                    continue
+                chk.add(rid, f"cone-closed:Graph.{name}:self.{nnode.attr}", False, f"Graph.{name} uses self.{nnode.attr}, which is outside the analysed cone "
+                        "(add it to the cone table after review)", chk.loc(fi, nnode))
     # positive control: the effect detector must see a known impure function
     ctl = effects_of(model.func("asynchronous._AsyncNodeWrapper.push_step"))
     if not ctl:
